@@ -1402,9 +1402,143 @@ def ecdfm_beta_note(rng):
     return {"max_abs_deviation_by_shift": out, "note": "numerical MLE (4-parameter beta): approximate, not part of the verdict"}
 
 
+# ------------------------------------------------------------------ round 7: the precision of EACH argument (storage dtype per role)
+# Quantifier covered: `inputs` ("for all input series ...") read per ROLE: observations, historical and future model data reach the library
+# from different files and therefore in different floating precisions (reanalysis netCDF = float32, model output / derived data = float64 and
+# every other combination).  The statement compares two runs that differ in cm_future ONLY; whenever cm_future (hence cm_future + c, k *
+# cm_future) is double precision, "changes every debiased value by exactly c" is judged with the DOUBLE precision tolerance of the main oracle
+# (shift_tol / scale_tol) whatever the precision of obs / cm_hist is -- `apply_oracle` relaxes to single precision as soon as ANY of the three
+# arrays is float32, which is necessary only if cm_future itself (and with it the result) is stored in single precision.  All eight additive
+# and all multiplicative configurations (incl. the rank / ecdf based ones: the float32 data are continuous draws rounded to float32, ties are
+# as rare as in float64), through `apply_location` and the public `apply` ([time, 1, 1] / [time, 1, 2] grids), explicit and inferred dates,
+# with and without seasonal / year windows.  The mean-change clause is NOT judged here (a float32 obs has its mean accumulated in single
+# precision by numpy: apply_oracle judges it with the single precision tolerance).
+PRECISION_MIXES = [("float32", "float64"), ("float32", "float32"), ("float64", "float32"), ("float64", "float64")]  # (obs, cm_hist); cm_future float64
+
+
+def precision_mix_oracle(rng, n_cases, res, problems):
+    cfs = oracle_configs()
+    names = list(cfs)
+    samples = res.extra.setdefault("oracle_samples", [])
+    worst = res.extra.setdefault("precision_mix_max_deviation", {})
+    for k in range(n_cases):
+        name = names[(5 * k) % len(names)]  # 5 is coprime to the number of configurations: every one of them in every 13 cases
+        kind, mk = cfs[name]
+        nprs = np.random.RandomState(rng.randint(0, 2**31 - 1))
+        mix = PRECISION_MIXES[0] if k < 6 else PRECISION_MIXES[(k + k // len(names)) % 3 if k % 5 else 3]
+        isi = name.startswith("ISIMIP")
+        via = "apply" if (k // 2) % 3 != 2 else "apply_location"
+        ncell = rng.choice([1, 2]) if via == "apply" and not isi else 1
+        n = 365 * rng.randint(2, 3) + rng.randint(0, 20)
+        y0 = rng.randint(1955, 2060)
+        dO, dH, dF = (probes.dates_from(datetime.date(y, 1, 1), n) for y in (y0, y0, y0 + 40))
+        trend = rng.random() < 0.5
+        cols = []
+        var = sorted(ISIMIP_ADDITIVE_VARIABLES)[(k // len(names)) % 3]
+        for _ in range(ncell):
+            o, h, f = probes.tas_like(nprs, dO, 283, 3), probes.tas_like(nprs, dH, 285.3, 4), probes.tas_like(nprs, dF, 288.4, 4)
+            if trend:
+                f = f + rng.choice([-1, 1]) * rng.choice([0.5, 2.0]) * np.arange(n) / 365.0
+            if kind == "mult":
+                o, h, f = (np.exp((x - 283.0) / 6.0) * 3.0 for x in (o, h, f))
+            if isi:
+                off, fac = ISIMIP_ADDITIVE_VARIABLES[var]
+                o, h, f = (off + fac * x for x in (o, h, f))
+            cols.append((o, h, f))
+        rw = rng.random() < (0.7 if isi else 0.4)
+        w = dict(running_window_mode=rw, running_window_length=rng.choice([31, 61]), running_window_step_length=rng.choice([15, 31]))
+        y, e = {}, {}
+        if name in ("CDFt", "QuantileDeltaMapping/absolute"):
+            yw = rng.random() < 0.5
+            y = dict(running_window_mode_over_years_of_cm_future=yw)
+            if yw:
+                y.update(running_window_over_years_of_cm_future_length=3, running_window_over_years_of_cm_future_step_length=1)
+            em, im = rng.choice([p for p in CDFT_PAIRS if p[1] not in DISCRETE_IECDF and p[0] != "kernel_density"])
+            e = dict(em=em, im=im)
+        if isi:
+            e = dict(var=var, npqm=rng.random() < 0.3, detrending=rng.random() < 0.85, ela=False)
+        if via == "apply":
+            arrs = [np.stack([c_[i] for c_ in cols], axis=1).reshape(n, 1, ncell) for i in range(3)]
+        else:
+            arrs = list(cols[0])
+        obs, hist, fut = arrs[0].astype(mix[0]), arrs[1].astype(mix[1]), arrs[2].astype("float64")
+        explicit = rng.random() < 0.6
+        case = {"config": name, "oracle": "precision-mix", "via": via, "grid": [1, ncell] if via == "apply" else None,
+                "dtypes": {"obs": mix[0], "cm_hist": mix[1], "cm_future": "float64"}, "window": w, "years": y, "extra": e,
+                "explicit_time": explicit, "n_time": n, "trend": trend, "case": k, "seed": C.seed(), "what": "precision-mix"}
+
+        def call(f2):
+            with warnings.catch_warnings(), np.errstate(all="ignore"):
+                warnings.simplefilter("ignore")
+                deb = mk(w, y, e)
+                if via == "apply":
+                    times = dict(time_obs=dO, time_cm_hist=dH, time_cm_future=dF) if explicit else {}
+                    return np.asarray(deb.apply(obs, hist, f2, progressbar=False, **times))
+                if explicit:
+                    return np.asarray(deb.apply_location(obs, hist, f2, dO, dH, dF))
+                return np.asarray(deb.apply_location(obs, hist, f2))
+
+        label = f"{name} via {via}, dtypes obs/cm_hist/cm_future = {mix[0]}/{mix[1]}/float64"
+        try:
+            base = call(fut)
+        except Exception as ex:  # noqa: BLE001
+            problems.append((f"{label}: {type(ex).__name__} on well-formed input: {str(ex)[:120]}", {**case, "what": "precision-mix-exception"}))
+            continue
+        if base.shape != fut.shape:
+            problems.append((f"{label}: the result has shape {base.shape} instead of {fut.shape}", {**case, "what": "precision-mix-exception"}))
+            continue
+        if not (np.issubdtype(base.dtype, np.floating) and np.all(np.isfinite(base))):
+            used = actual_dates((dO, dH, dF) if explicit else None, (n, n, n))
+            if window_samples_nonempty(used, rw, w["running_window_length"]):
+                problems.append(nonfinite_problem(label, base, used[0] if name.startswith("DeltaChange") else used[2], case))
+            else:
+                res.extra["skipped_nonfinite"] = res.extra.get("skipped_nonfinite", 0) + 1
+            continue
+        scale = float(max(np.abs(a.astype(float)).max() for a in (obs, hist, fut)))
+        b64 = base.astype(float)
+        # the debiased VALUES of two methods are observation values carrying the signal, held in the precision of obs: DeltaChange (obs + change,
+        # `np.empty_like(obs)`) and ISIMIP (quantiles of the pseudo-future observations, which step 5 returns in the dtype of obs).  With
+        # float32 obs the signal c reaches the result rounded to single precision there -- a precision of the data, as for a float32 cm_future
+        # elsewhere; every other combination is held to double precision.
+        obs_carried = mix[0] == "float32" and (isi or name.startswith("DeltaChange"))
+        changes = ([("c", c) for c in (rng.choice([0.1, 0.5, -0.5, 2.5]), rng.choice([3.0, -3.0, 1e3, -1e3]))] if kind == "add" else
+                   [("k", kf) for kf in (rng.choice([0.5, 2.0, 1.0 / 400.0]), rng.choice([10.0, 250.0]))])
+        for tag, v in changes:
+            try:
+                out = call(fut + v if tag == "c" else fut * v)
+            except Exception as ex:  # noqa: BLE001
+                problems.append((f"{label}, cm_future {'+' if tag == 'c' else '*'} {v}: {type(ex).__name__}: {str(ex)[:120]}",
+                                 {**case, "what": "precision-mix-exception", tag: v}))
+                break
+            if out.shape != base.shape or not np.issubdtype(out.dtype, np.floating):
+                problems.append((f"{label}, cm_future {'+' if tag == 'c' else '*'} {v}: result of shape {out.shape}, dtype {out.dtype} "
+                                 f"(first run: {base.shape}, {base.dtype})", {**case, "what": "precision-mix-exception", tag: v}))
+                break
+            if tag == "c":
+                devs, tol = np.abs(out.astype(float) - b64 - v), shift_tol(v, scale)
+            else:
+                devs, tol = np.abs(out.astype(float) - v * b64), scale_tol(v, float(np.abs(b64).max()))
+            if obs_carried:  # single precision values + signal (see above): the tolerance apply_oracle uses for float32 data
+                tol = 2e-5 * (1 + abs(v) + scale) if tag == "c" else 2e-5 * (1 + v) * (1 + float(np.abs(b64).max()))
+            dev = float(np.max(devs))
+            worst[name + ("(float32 obs)" if obs_carried else "")] = max(worst.get(name + ("(float32 obs)" if obs_carried else ""), 0.0), dev)
+            res.count(("precision-mix", name, mix, via, ncell, rw, tuple(sorted(y.items())), explicit, tag, v), True)
+            if len([x for x in samples if x.get("oracle") == "precision-mix"]) < 1 and mix[0] == "float32":
+                samples.insert(0, {**case, tag: v, "max_dev": dev, "tol": tol})
+            if not dev <= tol:
+                i = tuple(int(j) for j in np.unravel_index(int(np.argmax(devs)), devs.shape))
+                what = (f"adding c={v} to cm_future changes the output by {float(out[i]) - float(b64[i])!r}" if tag == "c" else
+                        f"scaling cm_future by k={v} scales the output by {float(out[i]) / float(b64[i])!r}")
+                problems.append((f"{label}: {what} at index {list(i)} (max deviation {dev:.3g} > tol {tol:.3g}; result dtypes {base.dtype}, "
+                                 f"{out.dtype}; cm_future is double precision in both runs)",
+                                 {**case, "what": "precision-mix-shift" if tag == "c" else "precision-mix-scale", tag: v, "index": list(i)}))
+                break
+
+
 # round 6: oracle tag (the `oracle` field of a recorded case) -> (function, offset of its own PRNG stream, budget from the main oracle's budget)
 ROUND6_ORACLES = {"window-sweep": (window_sweep_oracle, 6, lambda n_or: n_or // 2),
-                  "missing-values": (missing_values_oracle, 7, lambda n_or: n_or // 3)}
+                  "missing-values": (missing_values_oracle, 7, lambda n_or: n_or // 3),
+                  "precision-mix": (precision_mix_oracle, 8, lambda n_or: n_or // 2)}  # round 7
 
 
 def run(tier, res, force_search=False):
@@ -1453,6 +1587,10 @@ def run(tier, res, force_search=False):
         "valid value (`cm_future + c` in masked arithmetic, or a masked array of data + c); step 2 draws from numpy's global generator: both runs start "
         "from the same generator state (runtime-only: the theorem passes the same draws to both runs), the state is restored afterwards; integer data "
         "are whole hundredths of the unit and the shifts are whole or k/4, so that cm_future + c is exact",
+        "round 7 -- the storage precision of EACH argument (precision_mix_oracle): obs / cm_hist in float32 or float64 independently, cm_future (and "
+        "cm_future + c, k * cm_future) in float64: the shift / scale identity is held to the DOUBLE precision tolerance of the main oracle for all 13 "
+        "configurations via apply_location and apply; exception: with float32 obs DeltaChange and ISIMIP carry the signal on values held in the "
+        "precision of obs (np.empty_like(obs); step 5 returns the pseudo-future observations in obs's dtype) and are judged to 2e-5*(1+|c|+scale)",
         "RUNTIME-ONLY clauses (decided by the oracle on the real code, no theorem): (1) two calls on one debiaser object return distinct arrays and the "
         "first result is not modified -- object identity / buffer reuse is numpy + Python object state; the model's window functions are pure "
         "functions of their arguments, which is the specification the oracle ties the code to (state and purity as such: C12); (2) `apply` returns a "
